@@ -52,6 +52,11 @@ def handle (op : String) (args : List String) : Option String :=
         | some props => pure (boolStr (claimAgrees (selectWriters cfg m) props))
         | none => pure (boolStr false)
       | .error _ => pure (boolStr false)
+  | "c04.holds.claim_guard_inside" => do
+      -- corpus cases that must lie INSIDE the guards of the closed round-trip theorems (ASCII: asciiGuard as well)
+      let (cfg, m) ← run (do let c ← pCfg; let m ← pMesh; pure (c, m)) args
+      let ws := selectWriters cfg m
+      pure (boolStr (claimGuard ws && (cfg.format != .ascii || asciiGuard ws)))
   | "c04.claim_guard" => do
       -- measuring aid (never emitted by the harness): is this configuration × mesh inside the header-level guard?
       let (cfg, m) ← run (do let c ← pCfg; let m ← pMesh; pure (c, m)) args
